@@ -38,11 +38,12 @@ def box_line_start(text):
 def oracle_cut(text, k, full_atoms):
     """the property text for the truncation text[:k]; returns (failed clause or None, observation)"""
     obs = gc.read_text(text[:k])
+    if k <= box_line_start(text) and gc.opened(obs):
+        return ("a truncation ending before the box line (byte %d <= %d) was accepted on opening%s"
+                % (k, box_line_start(text), " with %d atoms" % len(obs[3]) if obs[0] == "ok" else
+                   " (reading the atoms failed later)")), obs
     if obs[0] == "err":
         return None, obs
-    if k <= box_line_start(text):
-        return ("a truncation ending before the box line (byte %d <= %d) was accepted with %d atoms"
-                % (k, box_line_start(text), len(obs[3]))), obs
     if obs[3] != full_atoms:
         return "an accepted truncation (byte %d) returned other atom records than the complete file" % k, obs
     return None, obs
@@ -66,11 +67,11 @@ def check_crlf(ctx, text_lf, replay_obj, where):
     start = box_line_start_crlf(crlf)
     for k in range(len(crlf) + 1):
         obs = gc.read_text(crlf[:k])
-        if obs[0] != "ok":
+        if k <= start and gc.opened(obs):
+            report(ctx, "CRLF copy: a truncation ending before the box line (byte %d <= %d) was accepted on opening"
+                   % (k, start), dict(replay_obj, cut=k), "crlf")
+        elif obs[0] != "ok":
             continue
-        if k <= start:
-            report(ctx, "CRLF copy: a truncation ending before the box line (byte %d <= %d) was accepted with %d atoms"
-                   % (k, start, len(obs[3])), dict(replay_obj, cut=k), "crlf")
         elif obs[3] != ref:
             report(ctx, "CRLF copy: an accepted truncation (byte %d) returned other atom records than the complete file" % k,
                    dict(replay_obj, cut=k), "crlf")
@@ -87,10 +88,56 @@ def check_abandoned(ctx, conf, recs, where, ks=None):
         for box_late in (False, True):
             obs = gc.run_abandoned(path, conf, recs, k, box_late)
             ctx.cov["S"][where] = ctx.cov["S"].get(where, 0) + 1
-            if obs[0] == "ok":
+            if gc.opened(obs):
                 report(ctx, "an abandoned writer (stopped after %d of %d records, never closed, garbage collected) left a file "
-                       "that was accepted with %d atoms" % (k, n, len(obs[3])),
+                       "that was accepted (%s atoms)" % (k, n, len(obs[3]) if obs[0] == "ok" else "no"),
                        {"kind": "abandoned", "case": gc.case_json(conf, recs), "k": k, "box_late": box_late}, "abandoned")
+
+
+def failclose_variants(conf, recs, rs=None):
+    """announced counts different from the number of records: above (k < N) and below (k > N, incl. 0)"""
+    k = len(recs)
+    out = [k + 1, k + 3]
+    if k >= 1:
+        out += [k - 1]
+    if k >= 3:
+        out += [1, 0]
+    return sorted(set(out))
+
+
+def check_failclose(ctx, conf, recs, where, announced=None, terms=None, use_with=None):
+    """S (and, through terms, K): the count is announced as N != number of records, the records are written and
+    close() is reached (explicit call / with block): close must raise, and the file left behind must be rejected on
+    opening.  k > N: record N is what the reader finds at the box position; when it consists of numeric tokens
+    only the file is a syntactically valid N-atom file (documented, outside the domain) and is skipped."""
+    path = os.path.join(gc.tmpdir(), "s14f.gro")
+    k = len(recs)
+    # the text of the atom lines, from a run of the same records that completes (count left to close)
+    reference = complete_text(dict(conf, natoms=None), recs) if recs else None
+    for i, N in enumerate(failclose_variants(conf, recs) if announced is None else announced):
+        c = dict(conf, natoms=N)
+        style = bool((i + k) & 1) if use_with is None else use_with
+        raised, text, obs = gc.run_failclose(path, c, recs, style)
+        ctx.cov["S"][where] = ctx.cov["S"].get(where, 0) + 1
+        rep = {"kind": "failclose", "case": gc.case_json(c, recs), "with_block": style}
+        if raised is None:
+            report(ctx, "close() did not raise although %d atoms were announced and %d written" % (N, k), rep, "failclose")
+            continue
+        if k > N and reference is not None and gc.numeric_line(reference, N):
+            ctx.cov["S"]["failclose_numeric_skipped"] = ctx.cov["S"].get("failclose_numeric_skipped", 0) + 1
+        elif gc.opened(obs):
+            report(ctx, "announced %d atoms, wrote %d, close() raised: the file left behind (%d bytes) was accepted on opening "
+                   "(natoms %s, %s atoms returned)" % (N, k, len(text), obs[2] if obs[0] == "ok" else "?",
+                                                       len(obs[3]) if obs[0] == "ok" else "no"), rep, "failclose")
+        if terms is not None and all(ord(ch) < 128 for ch in text):
+            try:
+                d = gc.effective_d(c)
+                terms.append(("chk_failclose %s\n   [%s]\n   %d %s (%s)" % (
+                    gc.t_conf(c), ";\n    ".join(gc.t_rec(x, d) for x in recs), raised, gc.t_bytes(text),
+                    gc.t_pobs(obs if obs[0] == "ok" else ("err", obs[1]), None)),
+                    dict(rep, what="failing close")))
+            except gc.Skip:
+                pass
 
 
 def full_read(text):
@@ -115,7 +162,7 @@ def oracle_crash(conf, recs):
             continue
         seen.add((label, t))
         obs = gc.read_text(t)
-        if label == "partial" and obs[0] == "ok":
+        if label == "partial" and gc.opened(obs):
             bad.append("a file left by a writer that stopped before its last operation (%d bytes of %d) was accepted"
                        % (len(t), len(full)))
         elif obs[0] == "ok" and obs[3] != fa:
@@ -251,6 +298,11 @@ def corpus(ctx):
             check_crlf(ctx, text, {"kind": "crlf", "case": gc.case_json(conf, recs)}, "corpus_crlf_partial_files")
     for conf, recs in CORPUS_ABANDONED:
         check_abandoned(ctx, conf, recs, "corpus_abandoned_writers")
+    # failing close (seeded C14-9): (announced, written) of the demo, with and without velocities, close / with block
+    for vel in (False, True):
+        for announced, written in ((5, 3), (5, 1), (2, 1), (2, 4), (3, 4), (6, 5), (1, 2), (3, 0)):
+            conf = {"title": "failing close", "natoms": None, "fmt": None, "box": ("vec", [3.0, 4.0, 5.0])}
+            check_failclose(ctx, conf, demo_records(written, vel), "corpus_failing_close", announced=[announced])
 
 
 def correspondence(ctx):
@@ -274,6 +326,14 @@ def correspondence(ctx):
         m = {"kind": "run", "case": gc.case_json(conf, recs)}
         cases += [crash, cuts]
         meta += [dict(m, what="crash points"), dict(m, what="byte prefixes")]
+        fterms = []
+        check_failclose(ctx, conf, recs, "generated_failing_close", terms=fterms)
+        if hist["runs"] % 7 == 0:
+            check_failclose(ctx, conf, [], "generated_failing_close", announced=[1, 4], terms=fterms)
+        for t, mm in fterms:
+            cases.append(t)
+            meta.append(mm)
+        hist["failing_close"] = hist.get("failing_close", 0) + len(fterms)
         hist["runs"] += 1
         hist["prefixes"] += len(obs_all)
         hist["crash_snapshots"] += len(ops)
@@ -369,6 +429,7 @@ def oracle(ctx, scale):
             S["nonascii_title_runs"] = S.get("nonascii_title_runs", 0) + 1
         if i % 2 == 0:
             check_crlf(ctx, full, {"kind": "crlf", "case": gc.case_json(conf, recs)}, "oracle_crlf_partial_files")
+        check_failclose(ctx, conf, recs, "oracle_failing_close")
         check_abandoned(ctx, conf, recs, "oracle_abandoned_writers",
                         ks=sorted(set([0, 1, len(recs) // 2, len(recs) - 1, len(recs)])))
     S["oracle_runs_x%d" % scale] = len(runs)
@@ -386,10 +447,13 @@ def replay(ctx, obj):
         for v in found:
             print(v)
         return not found
-    if kind in ("crlf", "shipped_crlf", "abandoned"):
+    if kind in ("crlf", "shipped_crlf", "abandoned", "failclose"):
         found = []
         ctx.violation = lambda what, replay_obj, **kw: found.append(what)
-        if kind == "abandoned":
+        if kind == "failclose":
+            conf, recs = gc.case_from_json(r["case"])
+            check_failclose(ctx, conf, recs, "replay", announced=[conf["natoms"]], use_with=bool(r.get("with_block")))
+        elif kind == "abandoned":
             conf, recs = gc.case_from_json(r["case"])
             check_abandoned(ctx, conf, recs, "replay", ks=[r["k"]])
         elif kind == "crlf":
